@@ -10,11 +10,18 @@ BASELINE = os.path.join(HERE, "srcdict_baseline.json")
 
 
 def harvest(repo):
-    out = {"str": set(), "int": set(), "float": set(), "bytes": set()}
+    out = {"str": set(), "int": set(), "float": set(), "bytes": set(), "certs": set()}
     root = os.path.join(repo, "webauthn")
     for dp, dn, fn in os.walk(root):
         for f in fn:
             if not f.endswith(".py"):
+                # data files shipped inside the package: certificates they carry are candidate anchors too
+                try:
+                    if not f.endswith((".pyc", ".pyo")):
+                        for fp, subj in _cert_ids(open(os.path.join(dp, f), "rb").read()):
+                            out["certs"].add(fp + " " + subj)
+                except Exception:
+                    pass
                 continue
             try:
                 tree = ast.parse(open(os.path.join(dp, f), encoding="utf-8").read())
@@ -25,6 +32,9 @@ def harvest(repo):
                     v = node.value
                     if isinstance(v, bool) or v is None:
                         continue
+                    if isinstance(v, (str, bytes)) and (b"BEGIN CERTIFICATE" in v if isinstance(v, bytes) else "BEGIN CERTIFICATE" in v):
+                        for fp, subj in _cert_ids(v if isinstance(v, bytes) else v.encode("utf-8", "replace")):
+                            out["certs"].add(fp + " " + subj)
                     if isinstance(v, str):
                         if len(v) <= 120 and "\n" not in v:
                             out["str"].add(v)
@@ -46,6 +56,24 @@ def harvest(repo):
     return out
 
 
+def _cert_ids(pem_blob):
+    """(sha256 of DER, subject) of every certificate in a PEM text"""
+    import hashlib
+    out = []
+    try:
+        from cryptography import x509
+        from cryptography.hazmat.primitives import serialization
+        for m in re.finditer(rb"-----BEGIN CERTIFICATE-----.*?-----END CERTIFICATE-----", pem_blob, re.S):
+            try:
+                c = x509.load_pem_x509_certificate(m.group(0))
+                out.append((hashlib.sha256(c.public_bytes(serialization.Encoding.DER)).hexdigest(), c.subject.rfc4514_string()))
+            except Exception:
+                out.append((hashlib.sha256(m.group(0)).hexdigest(), "(unreadable certificate literal)"))
+    except Exception:
+        pass
+    return out
+
+
 def write_baseline(repo):
     h = harvest(repo)
     json.dump({k: sorted(v, key=str) for k, v in h.items()}, open(BASELINE, "w"), indent=0)
@@ -62,10 +90,11 @@ def new(repo=None):
     try:
         base = json.load(open(BASELINE))
     except Exception:
-        base = {"str": [], "int": [], "float": [], "bytes": []}
+        base = {"str": [], "int": [], "float": [], "bytes": [], "certs": []}
     cur = harvest(repo)
     d = {"str": sorted(cur["str"] - set(base["str"])), "int": sorted(cur["int"] - set(base["int"])),
-         "float": sorted(cur["float"] - set(base["float"])), "bytes": [bytes.fromhex(x) for x in sorted(cur["bytes"] - set(base["bytes"]))]}
+         "float": sorted(cur["float"] - set(base["float"])), "bytes": [bytes.fromhex(x) for x in sorted(cur["bytes"] - set(base["bytes"]))],
+         "certs": sorted(x for x in cur["certs"] if x.split(" ", 1)[0] not in {y.split(" ", 1)[0] for y in base.get("certs", [])})}
     _CACHE[repo] = d
     return d
 
@@ -108,6 +137,20 @@ def words():
 
 def byte_prefixes():
     return [b for b in new()["bytes"] if 1 <= len(b) <= 8][:4] + [s.encode("utf-8") for s in new()["str"] if 1 <= len(s) <= 3 and not s.isascii()][:2]
+
+
+def new_certificates():
+    """certificate literals (PEM) of the current source whose DER fingerprint the pinned baseline does not have: candidate trust anchors"""
+    return list(new()["certs"])
+
+
+def blobs():
+    """new byte strings, and new text literals that are hex: candidate DER fragments / magic values"""
+    out = [b for b in new()["bytes"] if 2 <= len(b) <= 64]
+    for t in new()["str"]:
+        if re.fullmatch(r"([0-9a-fA-F]{2}){2,64}", t):
+            out.append(bytes.fromhex(t))
+    return out[:8]
 
 
 def summary():
